@@ -1,309 +1,112 @@
-(* C17: executable model of foolscap/eventual.py (_SimpleCallQueue.append/_turn/flush,
-   eventually, fireEventually, flushEventualQueue).
-
-   The model is parametrised by a record of SHAPE FACTS; [src_cfg] is the instance read
-   from the current source by translate/g_eventual.py (coq/gen/EventualGen.v).  Callables
-   are scripts: a callable has an identity, a list of actions it performs when it runs
-   (eventually(s') / flushEventualQueue()), and may end by raising.  The callback attached to
-   the Deferred of a flushEventualQueue() call is again an arbitrary list of actions
-   (eventually(s') / flushEventualQueue() with a callback ...), nested to any depth.
-   No proofs here. *)
+(* C17: the queue model = the TRANSLATED code of foolscap/eventual.py (gen/EventualGen.v: m_append, m__turn, m_flush,
+   m_eventually, m_fireEventually, m_flushEventualQueue, generated statement by statement on every run) placed in a
+   hand-written ENVIRONMENT:
+     - callables are scripts (lib/EventualSpec.v: an identity, the actions performed when run -- eventually(s') /
+       flushEventualQueue() with a callback that is again a list of actions -- and how it ends);
+     - invoking an entry of the batch performs its actions (which call the translated eventually / flushEventualQueue
+       again) and may raise; firing a flush Deferred makes the observation FlushFired and performs its callback;
+     - the reactor holds at most one pending call of _turn and runs it on request.
+   No proofs here.  lib/EventualProofs.v proves that this machine and the reference machine of lib/EventualSpec.v
+   (good_cfg) are the same function of the program. *)
 From Coq Require Import ZArith List Bool.
 Import ListNotations.
+Require Export Verif.lib.EventualBase Verif.lib.EventualSpec.
 Require Import Verif.gen.EventualGen.
 Local Open Scope Z_scope.
 
-(* how a callable ends: returns, raises an Exception, raises a BaseException that is not an Exception
-   (SystemExit, KeyboardInterrupt, GeneratorExit, ...) *)
-Inductive rkind := RNo | RExc | RBase.
+(* ---- names kept for lib/OrderEventual.v (C04), which was written against the former cfg-parameterised model:
+   the reference machine with the shape of the current code.  What ties it to the source is no longer a record of shape
+   facts but EventualProofs.run_bridge (the translated code IS this machine). *)
+Definition src_cfg : evcfg := good_cfg.
+Notation run := EventualSpec.run (only parsing).
+Notation turn := EventualSpec.turn (only parsing).
 
-Inductive script := Sc (id : Z) (acts : list act) (raises : rkind)
-with act := AEnq (s : script) | AFlush (fid : Z) (cb : list act).
-(* AFlush fid cb: d = flushEventualQueue(); d.addCallback(lambda _: [perform a for a in cb]) -- the callback
-   performs the actions cb, which may call flushEventualQueue() again, with a callback of the same kind *)
+Definition qw := world script (list act) unit.
+Definition qact := EventualBase.act script (list act) unit.
+Definition qenv := env script (list act) unit.
 
-Definition sid (s : script) : Z := match s with Sc i _ _ => i end.
-Definition sacts (s : script) : list act := match s with Sc _ a _ => a end.
-Definition sraises (s : script) : rkind := match s with Sc _ _ r => r end.
+(* the fields the reference machine has *)
+Definition to_q (w : qw) : qstate :=
+  {| events := w_events w; flushers := w_flushers w; timer := w_timer w; sched := w_sched w; in_turn := w_in_turn w |}.
 
-Record evcfg := {
-  c_pos : endpos;            (* where append() puts the new entry *)
-  c_arms : bool;             (* append() schedules _turn when no timer is pending *)
-  c_clears : bool;           (* _turn resets self._timer before running the batch *)
-  c_order : iterorder;       (* order in which _turn walks the batch *)
-  c_catch : catchmode;       (* what the try/except around each call catches *)
-  c_fire : firemode;         (* how _turn serves the flush observers after the batch *)
-  c_marks : bool;            (* self._in_turn is True while the batch runs *)
-  c_guard : flushguard;      (* when flush() returns an already-fired Deferred *)
-  c_append_runs : bool       (* append() itself calls cb(..): the callable runs inside eventually() *)
-}.
+Definition w0 : qw := mkW [] [] false false false [] [] tt.
 
-Definition src_cfg : evcfg := {|
-  c_pos := ev_append_pos; c_arms := ev_append_arms_timer; c_clears := ev_turn_clears_timer;
-  c_order := ev_iter_order; c_catch := ev_catch; c_fire := ev_fire_mode;
-  c_marks := ev_turn_marks_batch; c_guard := ev_flush_guard; c_append_runs := ev_append_runs_callable |}.
-
-(* the code as it was before commit "flushEventualQueue waits for the batch that is being run" *)
-Definition old_cfg : evcfg := {|
-  c_pos := Tail; c_arms := true; c_clears := true; c_order := Forward; c_catch := CatchAll;
-  c_fire := FireAllIfEmpty; c_marks := false; c_guard := FlushWhenNoEvents; c_append_runs := false |}.
-
-(* ... and before commit "flush observers are only notified while the eventual queue is still empty" *)
-Definition old2_cfg : evcfg := {|
-  c_pos := Tail; c_arms := true; c_clears := true; c_order := Forward; c_catch := CatchAll;
-  c_fire := FireAllIfEmpty; c_marks := true; c_guard := FlushWhenIdle; c_append_runs := false |}.
-
-(* `except Exception:` instead of the bare `except:` *)
-Definition exc_only_cfg : evcfg := {|
-  c_pos := Tail; c_arms := true; c_clears := true; c_order := Forward; c_catch := CatchException;
-  c_fire := FireWhileEmpty; c_marks := true; c_guard := FlushWhenIdle; c_append_runs := false |}.
-
-(* an append() that, besides storing the entry, calls cb(..) itself *)
-Definition append_sync_cfg : evcfg := {|
-  c_pos := Tail; c_arms := true; c_clears := true; c_order := Forward; c_catch := CatchAll;
-  c_fire := FireWhileEmpty; c_marks := true; c_guard := FlushWhenIdle; c_append_runs := true |}.
-
-Record qstate := {
-  events : list script;      (* self._events *)
-  flushers : list (Z * list act);   (* self._flushObservers, with the actions each one's callback will perform *)
-  timer : bool;              (* self._timer is set *)
-  sched : bool;              (* the reactor holds a pending call of _turn *)
-  in_turn : bool             (* self._in_turn *)
-}.
-
-Definition q0 : qstate := {| events := []; flushers := []; timer := false; sched := false; in_turn := false |}.
-
-Inductive ev :=
-| Sub (id : Z)                                       (* eventually(callable id) was called *)
-| Ran (id : Z)                                       (* the queue invoked callable id *)
-| Raised (id : Z)                                    (* ... and it raised *)
-| Escaped (id : Z)                                   (* the exception left _turn *)
-| FlushFired (fid : Z) (pending : nat) (running : bool)
-   (* the Deferred of flush request fid fired while `pending` submitted callables had not
-      been started, `running` = a callable of a batch was executing *)
-| FlushReq (fid : Z) (deferred : bool)
-   (* flushEventualQueue() was called (request fid); deferred = the Deferred it returned had not fired yet,
-      i.e. it was registered in self._flushObservers *)
-| FlushPop (fid : Z).
-   (* _turn took the registered observer fid out of self._flushObservers in order to notify it
-      (the FlushFired fid event follows at once) *)
-
-Definition is_nil {A} (l : list A) : bool := match l with [] => true | _ => false end.
-
-(* eventually(s) *)
-Definition enq1 (c : evcfg) (st : qstate) (s : script) : qstate :=
-  let evs := match c_pos c with Tail => events st ++ [s] | Head => s :: events st end in
-  let arm := negb (timer st) && c_arms c in
-  {| events := evs; flushers := flushers st; timer := timer st || arm; sched := sched st || arm;
-     in_turn := in_turn st |}.
-
-Definition set_flushers (st : qstate) (fl : list (Z * list act)) : qstate :=
-  {| events := events st; flushers := fl; timer := timer st; sched := sched st; in_turn := in_turn st |}.
-
-(* flush(): `if not self._events and not self._in_turn: return defer.succeed(None)` *)
-Definition flush_idle (c : evcfg) (st : qstate) : bool :=
-  match c_guard c with
-  | FlushWhenIdle => is_nil (events st) && negb (in_turn st)
-  | FlushWhenNoEvents => is_nil (events st)
-  | FlushNeverSync => false
-  end.
-
-(* the observation made when a flush Deferred fires.
-   ctx = Some rest: a callable of the batch is running and `rest` have not started *)
-Definition fired_ev (ctx : option (list script)) (st : qstate) (fid : Z) : ev :=
-  FlushFired fid (List.length (match ctx with Some r => r | None => [] end) + List.length (events st))
-             (match ctx with Some _ => true | None => false end).
-
-(* perform a list of actions, threading the state; f performs one action *)
-Definition run_list (f : qstate -> act -> qstate * list ev) : list act -> qstate -> qstate * list ev :=
-  fix go (l : list act) (st : qstate) {struct l} : qstate * list ev :=
+Definition run_list_g (f : qw -> act -> qw * list ev) : list act -> qw -> qw * list ev :=
+  fix go (l : list act) (w : qw) {struct l} : qw * list ev :=
     match l with
-    | [] => (st, [])
-    | a :: l' => let '(st1, t1) := f st a in
-                 let '(st2, t2) := go l' st1 in (st2, t1 ++ t2)
+    | [] => (w, [])
+    | a :: l' => let '(w1, t1) := f w a in
+                 let '(w2, t2) := go l' w1 in (w2, t1 ++ t2)
     end.
 
-(* one action, performed either at top level / by the callback of a flush Deferred that _turn fires
-   (ctx = None) or by a callable of the batch being run, or by a callback that fires synchronously
-   inside it (ctx = Some rest, rest = the callables of the batch not started yet).
-   flushEventualQueue(): when the queue is idle the Deferred comes back already fired, and the
-   callback added to it runs at once, nested, right there: its actions are performed (recursively)
-   before the action that follows the flush request.  Otherwise the request is appended to
-   self._flushObservers together with its callback.
-   eventually(s): the entry is stored (and _turn scheduled) as the facts c_pos / c_arms say.  When append() itself
-   calls cb (c_append_runs), the callable RUNS AT ONCE, inside eventually(): Ran, then what its actions do (performed
-   recursively, with "a callable is executing" as their context), and, if it raises, Raised and Escaped -- append() has no
-   try/except, the exception reaches the caller of eventually().  The entry stays queued, so the callable runs a second time
-   in its turn; that is what such code does.  Simplifications of that (never current) configuration: the entry is modelled
-   as appended and armed before the call wherever the call statement stands in append(), and after an escaped exception the
-   remaining actions of the enclosing callable / callback are still performed. *)
-Fixpoint do_act (c : evcfg) (ctx : option (list script)) (st : qstate) (a : act) {struct a} : qstate * list ev :=
+Definition raise_evs (i : Z) (k : rkind) : list ev := match k with RNo => [] | _ => [Raised i] end.
+Definition raise_flow (i : Z) (k : rkind) : flow := match k with RNo => FNorm | _ => FExc i k end.
+Definition escape_evs (f : flow) : list ev := match f with FExc i _ => [Escaped i] | _ => [] end.
+
+(* the environment of a call made from outside _turn: append() / flush() are not expected to take entries from a
+   batch or to fire Deferreds (if the translated code does, nothing happens in the model and the correspondence
+   shows it); [now] is what invoking the entry inside append() does *)
+Definition env_out (now : script -> qact) : qenv := mkEnv (fun _ _ => ret) now (fun _ => ret) (fun _ => O).
+
+(* one action, performed at top level / by the callback of a flush Deferred that _turn fires (ctx = None), or by a
+   callable of the batch being run or a callback firing synchronously inside it (ctx = Some rest, rest = the
+   callables of the batch not started yet).
+   eventually(s): the translated eventually() runs.  Should the translated append() invoke the entry itself, the
+   callable runs right there: Ran, its actions (recursively), Raised and -- nothing in append() catches it -- Escaped.
+   flushEventualQueue(): the translated function runs with the Deferred (fid, cb) the environment would create;
+   when it answers with a fired Deferred the callback added to it runs at once: the observation, then its actions. *)
+Fixpoint do_act_g (ctx : option (list script)) (w : qw) (a : act) {struct a} : qw * list ev :=
   match a with
   | AEnq s =>
-      if c_append_runs c
-      then match s with
-           | Sc i acts k =>
-               let '(st', t) := run_list (do_act c (Some (match ctx with Some r => r | None => [] end))) acts (enq1 c st s) in
-               (st', Sub i :: Ran i :: t ++ match k with RNo => [] | _ => [Raised i; Escaped i] end)
-           end
-      else (enq1 c st s, [Sub (sid s)])
+      match s with
+      | Sc i acts k =>
+          let now : script -> qact := fun _ w1 =>
+            let '(w2, t) := run_list_g (do_act_g (Some (match ctx with Some r => r | None => [] end))) acts w1 in
+            (w2, Ran i :: t ++ raise_evs i k, raise_flow i k) in
+          let '(w', t, fl) := m_eventually (env_out now) s w in
+          (w', Sub i :: t ++ escape_evs fl)
+      end
   | AFlush fid cb =>
-      if flush_idle c st
-      then let '(st', t) := run_list (do_act c ctx) cb st in
-           (st', FlushReq fid false :: fired_ev ctx st fid :: t)
-      else (set_flushers st (flushers st ++ [(fid, cb)]), [FlushReq fid true])
-  end.
-
-Definition run_acts (c : evcfg) (ctx : option (list script)) (st : qstate) (l : list act) : qstate * list ev :=
-  run_list (do_act c ctx) l st.
-
-(* a flush Deferred fires: the observation is made, then its callback performs cb *)
-Definition notify (c : evcfg) (ctx : option (list script)) (st : qstate) (fid : Z) (cb : list act) : qstate * list ev :=
-  let '(st', t) := run_acts c ctx st cb in (st', fired_ev ctx st fid :: t).
-
-Definition catches (c : evcfg) (k : rkind) : bool :=
-  match c_catch c with
-  | CatchAll => true
-  | CatchException => match k with RBase => false | _ => true end
-  | CatchNone => false
-  end.
-
-(* `for cb, args, kwargs in events: try: cb(..) except: log.err()`; the bool says whether
-   the loop ran to its end (false: an exception left _turn) *)
-Fixpoint run_batch (c : evcfg) (st : qstate) (batch : list script) : qstate * list ev * bool :=
-  match batch with
-  | [] => (st, [], true)
-  | s :: rest =>
-      let '(st1, t1) := run_acts c (Some rest) st (sacts s) in
-      match sraises s with
-      | RNo => let '(st2, t2, ok) := run_batch c st1 rest in (st2, Ran (sid s) :: t1 ++ t2, ok)
-      | k =>
-        if catches c k then
-          let '(st2, t2, ok) := run_batch c st1 rest in (st2, Ran (sid s) :: t1 ++ Raised (sid s) :: t2, ok)
-        else (st1, Ran (sid s) :: t1 ++ [Raised (sid s); Escaped (sid s)], false)
+      let '(w', t, fl) := m_flushEventualQueue (env_out (fun _ => ret)) (fid, cb) w in
+      match fl with
+      | FRet RFired =>
+          let '(w'', t') := run_list_g (do_act_g ctx) cb w' in
+          (w'', t ++ FlushReq fid false :: fired_ev ctx (to_q w') fid :: t')
+      | _ => (w', t ++ [FlushReq fid true])
       end
   end.
 
-(* how many flush requests a list of actions can make at most while it is performed (the requests of
-   callbacks of callbacks included, and those of the scripts it enqueues: they run in a later turn under the
-   current code, but at once when append() calls them) *)
-Fixpoint act_flushes (a : act) : nat :=
-  match a with
-  | AEnq (Sc _ acts _) =>      (* counted for the configurations whose append() runs the callable at once *)
-      (fix go (l : list act) : nat := match l with [] => 0%nat | x :: l' => (act_flushes x + go l')%nat end) acts
-  | AFlush _ cb => S ((fix go (l : list act) : nat := match l with [] => 0%nat | x :: l' => (act_flushes x + go l')%nat end) cb)
-  end.
-Definition acts_flushes (l : list act) : nat := fold_right (fun a n => (act_flushes a + n)%nat) 0%nat l.
-(* upper bound of the number of notifications one run of the observer loop can make: the registered
-   observers plus every request their callbacks can make *)
-Definition obs_weight (fl : list (Z * list act)) : nat :=
-  fold_right (fun o n => (S (acts_flushes (snd o)) + n)%nat) 0%nat fl.
+Definition run_acts_g (ctx : option (list script)) (w : qw) (l : list act) : qw * list ev :=
+  run_list_g (do_act_g ctx) l w.
 
-(* `while self._flushObservers and not self._events: self._flushObservers.pop(0).callback(None)`.
-   The condition is evaluated on the LIVE list and queue before every iteration, and pop(0) removes the head
-   of the live list before the callback runs: observers which a callback appends (possible as soon as the
-   queue is not empty any more, or under a flush() that never answers at once) stay registered, in order, behind those
-   not served yet.  `fuel` bounds the number of iterations; [fire] starts it with obs_weight (flushers st),
-   which is never exhausted (EventualProofs.fire_while_complete: for every configuration the loop ends because
-   its condition is false). *)
-Fixpoint fire_while (c : evcfg) (fuel : nat) (st : qstate) {struct fuel} : qstate * list ev :=
-  match fuel with
-  | O => (st, [])
-  | S fuel' =>
-      match flushers st with
-      | [] => (st, [])
-      | (f, cb) :: rest =>
-          if is_nil (events st)
-          then let '(st1, t1) := notify c None (set_flushers st rest) f cb in
-               let '(st2, t2) := fire_while c fuel' st1 in (st2, FlushPop f :: t1 ++ t2)
-          else (st, [])
-      end
-  end.
+(* the call  cb( *args, **kwargs )  on an entry taken from the batch *)
+Definition call_g (s : script) (rest : list script) : qact :=
+  fun w => let '(w1, t1) := run_acts_g (Some rest) w (sacts s) in
+           (w1, Ran (sid s) :: t1 ++ raise_evs (sid s) (sraises s), raise_flow (sid s) (sraises s)).
 
-(* `observers, self._flushObservers = self._flushObservers, []; for o in observers: o.callback(None)`:
-   fl is the snapshot; the live list (reset to [] by the caller) collects what the callbacks register *)
-Fixpoint fire_all (c : evcfg) (fl : list (Z * list act)) (st : qstate) : qstate * list ev :=
-  match fl with
-  | [] => (st, [])
-  | (f, cb) :: rest =>
-      let '(st1, t1) := notify c None st f cb in
-      let '(st2, t2) := fire_all c rest st1 in (st2, FlushPop f :: t1 ++ t2)
-  end.
+(* <Deferred of a flush request>.callback(None): the observation, then what the callback does *)
+Definition fire_g (o : Z * list act) : qact :=
+  fun w => let '(w1, t1) := run_acts_g None w (snd o) in (w1, fired_ev None (to_q w) (fst o) :: t1, FNorm).
 
-Definition fire (c : evcfg) (st : qstate) : qstate * list ev :=
-  match c_fire c with
-  | FireWhileEmpty => fire_while c (obs_weight (flushers st)) st
-  | FireAllIfEmpty => if is_nil (events st) then fire_all c (flushers st) (set_flushers st []) else (st, [])
-  | FireAllAlways => fire_all c (flushers st) (set_flushers st [])
-  end.
+Definition env_turn : qenv :=
+  mkEnv call_g (fun _ => ret) fire_g (fun w => obs_weight (w_flushers w)).
 
-(* the reactor runs the pending call of _turn, if any *)
-Definition turn (c : evcfg) (st : qstate) : qstate * list ev :=
-  if negb (sched st) then (st, []) else
-  let st0 := {| events := []; flushers := flushers st; timer := if c_clears c then false else timer st;
-                sched := false; in_turn := c_marks c |} in
-  let batch := match c_order c with Forward => events st | Backward => rev (events st) end in
-  let '(st1, t1, ok) := run_batch c st0 batch in
-  if ok then
-    let '(st2, t2) := fire c {| events := events st1; flushers := flushers st1; timer := timer st1; sched := sched st1;
-                                in_turn := false |} in
-    (st2, t1 ++ t2)
-  else (st1, t1).
+(* the reactor runs the pending call of _turn, if any: the translated _turn *)
+Definition turn_g (w : qw) : qw * list ev :=
+  if negb (w_sched w) then (w, []) else
+  let wr := mkW (w_events w) (w_flushers w) (w_timer w) false (w_in_turn w) (w_loc w) (w_obs w) (w_user w) in
+  let '(w1, t, fl) := m__turn env_turn wr in (w1, t ++ escape_evs fl).
 
-Inductive op := OAct (a : act) | OTurn.
+Definition step_g (w : qw) (o : op) : qw * list ev :=
+  match o with OAct a => do_act_g None w a | OTurn => turn_g w end.
 
-Definition step (c : evcfg) (st : qstate) (o : op) : qstate * list ev :=
-  match o with OAct a => do_act c None st a | OTurn => turn c st end.
-
-Fixpoint run (c : evcfg) (st : qstate) (ops : list op) : qstate * list ev :=
+Fixpoint run_g (w : qw) (ops : list op) : qw * list ev :=
   match ops with
-  | [] => (st, [])
-  | o :: ops' => let '(st1, t1) := step c st o in
-                 let '(st2, t2) := run c st1 ops' in (st2, t1 ++ t2)
+  | [] => (w, [])
+  | o :: ops' => let '(w1, t1) := step_g w o in
+                 let '(w2, t2) := run_g w1 ops' in (w2, t1 ++ t2)
   end.
 
-(* projections of a trace *)
-Fixpoint subs (t : list ev) : list Z :=
-  match t with [] => [] | Sub i :: t' => i :: subs t' | _ :: t' => subs t' end.
-Fixpoint rans (t : list ev) : list Z :=
-  match t with [] => [] | Ran i :: t' => i :: rans t' | _ :: t' => rans t' end.
-
-Definition flush_ok (e : ev) : Prop :=
-  match e with FlushFired _ n r => n = 0%nat /\ r = false | _ => True end.
-
-(* flush requests that were deferred (registered as observers), in request order *)
-Fixpoint fdeferred (t : list ev) : list Z :=
-  match t with [] => [] | FlushReq f d :: t' => if d then f :: fdeferred t' else fdeferred t' | _ :: t' => fdeferred t' end.
-(* all flush requests *)
-Fixpoint freqs (t : list ev) : list Z :=
-  match t with [] => [] | FlushReq f _ :: t' => f :: freqs t' | _ :: t' => freqs t' end.
-(* registered observers taken out of the list by _turn, in order *)
-Fixpoint fpopped (t : list ev) : list Z :=
-  match t with [] => [] | FlushPop f :: t' => f :: fpopped t' | _ :: t' => fpopped t' end.
-(* the notifications, in order *)
-Fixpoint ffired (t : list ev) : list Z :=
-  match t with [] => [] | FlushFired f _ _ :: t' => f :: ffired t' | _ :: t' => ffired t' end.
-(* what must be answered by a notification, in order: a request that finds the queue idle, a registered observer
-   that is taken out of the list *)
-Fixpoint fanswered (t : list ev) : list Z :=
-  match t with
-  | [] => []
-  | FlushReq f d :: t' => if d then fanswered t' else f :: fanswered t'
-  | FlushPop f :: t' => f :: fanswered t'
-  | _ :: t' => fanswered t'
-  end.
-
-(* ---- encoding of traces for the correspondence check (harness/c17.py) *)
-Definition enc_ev (e : ev) : list Z :=
-  match e with
-  | Sub i => [1; i] | Ran i => [2; i] | Raised i => [3; i] | Escaped i => [4; i]
-  | FlushFired f n r => [5; f; Z.of_nat n; if r then 1 else 0]
-  | FlushReq f d => [6; f; if d then 1 else 0]
-  | FlushPop f => [7; f]
-  end.
-Definition enc_trace (t : list ev) : list Z := flat_map enc_ev t.
-Definition enc_state (st : qstate) : list Z :=
-  [Z.of_nat (List.length (events st)); Z.of_nat (List.length (flushers st));
-   if timer st then 1 else 0; if in_turn st then 1 else 0].
+(* ---- for the correspondence check (harness/c17.py): the translated code against the real one *)
 Definition run_enc (ops : list op) : list Z * list Z :=
-  let '(st, t) := run src_cfg q0 ops in (enc_trace t, enc_state st).
+  let '(w, t) := run_g w0 ops in (enc_trace t, enc_state (to_q w)).
